@@ -174,3 +174,29 @@ pub fn c11(tier: Tier, seed: u64) -> i32 {
     rep.floor("earlier_timestamp_attempts", 50);
     rep.finish()
 }
+
+pub fn c14(tier: Tier, seed: u64) -> i32 {
+    use crate::monitors::c14::C14;
+    let mut rep = Report::new("C14", tier, seed);
+    rep.rule = "history workload on adaptive-fee pools (constants drawn from the validity rules incl. control factor 0 and extremes, tick group sizes dividing the spacing, trade-enable timestamps in the past/future, clock gaps in every class: < filter, < decay, >= decay, > 1h): for every successful swap leg an independent re-statement of the documented schedule is applied to the per-step hook records: the reference (vol, group, timestamp) expected from the pre-swap oracle variables and the clock by the filter/decay/reset rules must equal the stored one; every step with a non-zero amount lies in one tick group (or in a span over which the schedule is constant) and carries static + ceil(cf*(acc*size)^2/1e13) capped at 100000 with acc = min(vref + |g-gref|*10000, max); rates within [static, 100000]; accumulator <= max; stored accumulator = that of the end group or a neighbour; major-swap timestamp set iff the price moved by the threshold (2e-9 band on log price); control factor 0 => static rate and no extra step splitting; no trading before trade_enable_timestamp. distinct = (instruction, direction, elapsed-time class, control factor zero?, saturated?, #steps)".into();
+    rep.assumptions = vec![SVM_ASSUMPTION.into(), "oracle variables are reached through sequences of swaps and clock gaps (no direct seeding)".into()];
+    let per_shard = tier.pick(18, 1800);
+    let acc = run_histories(
+        seed,
+        per_shard,
+        move |_r| HistCfg { ops: 140, pools: 2, spl_only: true, allow_adaptive: true, all_adaptive: true, spacings: vec![1, 8, 64, 128, 256], w_swap: 58, w_two_hop: 6, w_liq: 18, w_fees: 2, w_lifecycle: 2, w_clock: 14, w_setters: 1, ..Default::default() },
+        || vec![Box::new(C14) as Box<dyn Monitor>],
+    );
+    rep.acc = acc;
+    rep.floor("adaptive_swaps", 3000);
+    rep.floor("adaptive_steps_checked", 5000);
+    rep.floor("reference_class_filter", 300);
+    rep.floor("reference_class_decay", 100);
+    rep.floor("reference_class_expired", 100);
+    rep.floor("reference_class_reset", 100);
+    rep.floor("major_swaps", 300);
+    rep.floor("minor_swaps", 300);
+    rep.floor("swaps_in_saturated_range", 100);
+    rep.floor("swaps_before_trade_enable", 30);
+    rep.finish()
+}
